@@ -382,3 +382,19 @@ PROPS["C06"] = Prop(
     level_text=("exploration: mutated valid documents for both back ends and entry points; memory safety, leaks, hangs and assertion "
                 "failures are verdict-bearing for every input, well-formedness for every successful load"),
 )
+
+
+PROPS["C12"] = Prop(
+    "C12",
+    [Stage("asan", "c12_dup", "asan", quick=3000, thorough=70000, per_worker_env=xml_backend_env)],
+    rule=("one source per case (synthetic or corpus XML, random configuration) modified by 0-9 calls (annotations + restricts that invalidate "
+          "the distances/memattr caches), userdata on half of the objects; dup; CANON(all incl. gp_index, userdata pointers, filters, flags, "
+          "support) and XML bytes of copy vs original; a 2-9 call history on one of them with the other's CANON compared after every call; "
+          "then destroy one (random order), run the read-only battery + XML export + a modifying history on the survivor and destroy it "
+          "under ASan/LSan. distinct+non-trivial = class 1: dups of topologies with >= 2 side structures whose later history changed the "
+          "mutated copy, keyed by (feature vector, shape, which copy was mutated / destroyed first)"),
+    nontrivial_classes=[1], floor=100,
+    assumptions=COMMON_ASSUME + ["the topology-level userdata pointer (hwloc_topology_set_userdata) is only counted, the statement is about object userdata"],
+    technique="runtime monitor: canonical-dump equality, cross-mutation monitor and destroy-one-then-use-the-other under gcc ASan+LSan (shared storage shows as use-after-free / double free)",
+    level_text="exploration: dups of modified topologies; independence is decided by ASan/LSan on destruction-order tests plus dump comparisons after every call on the other copy",
+)
